@@ -2,7 +2,12 @@
 import numpy as np
 
 from harness import corpus, drivercheck
-from harness.problems import CONVEX, NONCONVEX
+from harness.problems import CONVEX, NONCONVEX, CS_OK
+
+
+def problems_cs():
+    return CS_OK
+
 
 PREFIX = ("C02_",)
 RULE = ("design: Feasible.tla (rounding as an adversary, per point-producing site); code->spec: every Eval / stencil / "
@@ -16,7 +21,7 @@ def specs(ctx):
     fams = CONVEX + NONCONVEX
     for i in range(ctx.pick(700, 8000)):
         jac = ["callable", "callable", "callable", "callable", "none", "2-point", "3-point", "cs"][i % 8]
-        s = corpus.rand_spec(rng, fams if jac != "cs" else CONVEX + ["qpcos", "osc", "badscale", "sphere", "quartic"],
+        s = corpus.rand_spec(rng, fams if jac != "cs" else problems_cs(),
                              nmax=8, jacs=(jac,), small_budgets=(i % 3 == 0), allow_target=False)
         s.setdefault("box_kinds", ["lo", "up", "box", "box", "box", "fix"])
         if jac != "callable":
